@@ -32,9 +32,12 @@ fn carry_level(prev_min: i64, res: i64) -> &'static str {
 
 fn gen_start_seconds(rng: &mut Rng) -> i64 {
     // seconds since 0001-01-01T00:00:00
-    let a = match rng.below(6) {
+    let a = match rng.below(7) {
         0 => *rng.pick(&[1i64, 2, 4, 100, 400, 1900, 2000, 2024, 2100, 9996, 9999]),
-        1 => rng.range_i64(1, 9998),
+        // the 8-year gaps between leap days around century years that are not leap years (and the 4-year
+        // ones around those that are): where a "next leap day" search has to look furthest
+        1 => *rng.pick(&[1896i64, 2096, 2196, 2296, 1996, 2396, 96, 396, 9896]) + rng.range_i64(0, 8),
+        2 => rng.range_i64(1, 9998),
         _ => rng.range_i64(1970, 2100),
     };
     let day = match rng.below(6) {
